@@ -1,7 +1,7 @@
 """Property id -> check function(prop, tier, seed) -> exit status."""
 import json
 
-from . import checks_sampler, checks_ckpt, checks_bounds
+from . import checks_sampler, checks_ckpt, checks_bounds, checks_small
 
 CHECKS = {
     'C01': checks_sampler.check,
@@ -14,6 +14,9 @@ CHECKS = {
     'C07': checks_bounds.check_c07,
     'C09': checks_bounds.check_c09,
     'C13': checks_bounds.check_c13,
+    'C14': checks_small.check_c14,
+    'C15': checks_small.check_c15,
+    'C16': checks_small.check_c16,
 }
 
 
